@@ -188,8 +188,8 @@ def c17_history(bins, beh, hist, size, rng):
                         fx.monorail(["checkpoint", "update"])
                         fx.monorail(["run", "-c", "build", "-t", targets[0]["path"]])
                     generated = True
-                    reload_pristine(("src",))
-                    dirty["src"].clear()
+                    # the source keeps its pristine bytes and dirty regions: restoring a region later changes the file
+                    # relative to what `generate` read, exactly as in ConfigFile!Restore
             elif kind == "edit_source":
                 version[0] += 1
                 write_source()
